@@ -124,7 +124,9 @@ class Mon:
             with np.errstate(divide="ignore"):
                 logp = n * math.log(alpha) - math.lgamma(n) + (n - 1) * np.log(t) - alpha * t
             ref = np.exp(logp)
-            ok, i, exc = close(w, ref, 1e-10, 1e-300)
+            # (samples a hundred orders of magnitude below the peak are products of an overflowing power and a denormal
+            # exponential: compared relative to the peak, not to themselves)
+            ok, i, exc = close(w, ref, 1e-10, 1e-14 * float(ref.max()))
             if not ok:
                 self.v("GammaWindow(order=%d, peak=%r)(%d)[%r] = %r, reversed gamma density = %r" % (n, peak, width, i, float(w[i]), float(ref[i])),
                        check="gamma_density", order=n, peak=peak, width=width)
@@ -277,6 +279,8 @@ def run_case(case, rec, mon=None):
         rng = rng_for(case["seed"], "C20", case["idx"])
         for _ in range(case["n"]):
             order = int(rng.integers(1, 9))
+            if rng.random() < 0.06:
+                order = int(rng.choice([12, 22, 25, 40]))  # extreme but valid
             peak = float(rng.uniform(0.1, 0.95))
             width = int(rng.choice([0, 1, 2, 3, 4, 5, int(rng.integers(6, 64)), int(rng.integers(64, 1200))]))
             F.GammaWindow(order, peak).get_impulse_response(width)
